@@ -1175,4 +1175,6 @@ func init() {
 	register("C18", ruleC19NoDrop)
 	// the goroutines of the call strategies are counted and signalled in pairs: SPINASYNC without Done never finishes
 	register("C14", ruleC10GoClosures)
+	// "stays usable afterwards": a CTE whose evaluation failed is evaluated again by the next execution
+	register("C19", ruleC07CteMemo)
 }
